@@ -145,7 +145,13 @@ type Interp struct {
 	// Edge is called on every control transfer inside the interpreted functions.
 	Edge  func(in *Interp, fr *Frame, from, to *ssa.BasicBlock) bool
 	ncell int
+	// siteDecisions counts the new symbolic decisions taken at each branch on this path
+	siteDecisions map[ssa.Instruction]int
 }
+
+// MaxSiteDecisions bounds the number of distinct symbolic questions one branch
+// instruction may ask on a single path.
+var MaxSiteDecisions = 200
 
 func NewInterp(prog *ssa.Program, o *Oracle) *Interp {
 	return &Interp{Module: DefaultModule, Prog: prog, Oracle: o, Globals: map[*ssa.Global]*Cell{}, Conds: map[string]bool{}, MaxStep: 200000, MaxDep: 60}
@@ -255,6 +261,18 @@ func (in *Interp) Decide(cond Val, site ssa.Instruction) bool {
 	nk := Key(in.Not(cond))
 	if b, ok := in.Conds[nk]; ok {
 		return !b
+	}
+	// the same test decided anew again and again on one path is a loop whose
+	// bound is symbolic: every round asks a new question (i < n for the next i)
+	// and the exploration would never end
+	if site != nil {
+		if in.siteDecisions == nil {
+			in.siteDecisions = map[ssa.Instruction]int{}
+		}
+		in.siteDecisions[site]++
+		if in.siteDecisions[site] > MaxSiteDecisions {
+			in.Undecided(fmt.Sprintf("a loop with a symbolic bound: the test was decided %d times on one path, each time as a new question (last: %s)", MaxSiteDecisions, k), site)
+		}
 	}
 	c := in.Oracle.Choose(2, "if "+k)
 	b := c == 0
